@@ -788,6 +788,9 @@ class _SFTPFileReader(_SFTPParallelIO[bytes]):
 
         data, _ = await self._handler.read(self._handle, offset, size)
 
+        if not data and size:
+            raise SFTPFailure('Unexpected empty read response')
+
         return len(data), data
 
     async def run(self) -> bytes:
